@@ -60,6 +60,8 @@ class World:
         self.ask_log: list = []  # (caller, callee, timeout, handler)
         self.dead: dict = {}  # actor name -> repr(exception)
         self.on_handler: Optional[Callable] = None
+        self.on_state: list = []  # callbacks (actor, old state, new state, handler name, instant) at every phase change
+        self.on_step: Optional[Callable] = None  # (actor, handler name, 'pre'|'post') for EVERY envelope, nested asks included
         self.fault_hook: Optional[Callable] = None  # (actor_name, msg_name, index) -> exception or None
         self.msg_index: dict = collections.Counter()
         self.dropped_tells: list = []
@@ -550,6 +552,10 @@ class SimActor(pykka.Actor):
         if envelope.reply_to is None:
             w.now_us += 1  # the wall clock is strictly monotonic between two handlers
             w.emit("deliver", (self.sim_name, name))
+        if w.on_step is not None:
+            w.on_step(self, name, "pre")
+        st_before = getattr(self, "state", None) if w.on_state else None
+        log_before = len(w.log)
         try:
             try:
                 if w.fault_hook is not None and envelope.reply_to is None:
@@ -573,6 +579,13 @@ class SimActor(pykka.Actor):
                         self._handle_failure(*sys.exc_info())
         finally:
             w.stack.pop()
+        if w.on_state:
+            st_after = getattr(self, "state", None)
+            if st_after != st_before:
+                for cb in w.on_state:
+                    cb(self, st_before, st_after, name, w.now_us, log_before)
+        if w.on_step is not None:
+            w.on_step(self, name, "post")
         if self.actor_stopped.is_set():
             self._actor_loop_teardown()
         if w.on_handler is not None and not w.stack:
